@@ -66,6 +66,7 @@ type server struct {
 	tags      map[string]int
 	responses int
 	logins    int
+	stores    int
 	refused   int
 	inflight  *int64
 	atDisrupt int64
@@ -127,7 +128,31 @@ func (sv *server) reply(cmd *script.Command) string {
 		}
 		return fmt.Sprintf("* 1 FETCH (FLAGS (\\Seen) BODY[] {%d}\r\n%s)\r\n* 2 FETCH (FLAGS ())\r\n%s OK done\r\n", len(body), body, tag)
 	case "STORE":
-		return "* 1 FETCH (FLAGS (\\Seen))\r\n" + tag + " OK done\r\n"
+		// message data of varying width without any literal: 1..40 data
+		// items in one FETCH response (the reader buffers a message's items
+		// before its consumer shows up)
+		sv.mu.Lock()
+		sv.stores++
+		width := []int{1, 16, 17, 24, 32, 33, 40, 2}[sv.stores%8]
+		sv.mu.Unlock()
+		var b strings.Builder
+		b.WriteString("* 1 FETCH (FLAGS (\\Seen)")
+		for k := 1; k < width; k++ {
+			// (body sections, even quoted or NIL ones, are handed over early
+			// by the client; sizes are plain data items)
+			switch {
+			case k == 1:
+				b.WriteString(" UID 1")
+			case k == 2:
+				b.WriteString(" RFC822.SIZE 42")
+			case k == 3:
+				b.WriteString(" INTERNALDATE \"01-Jan-2024 00:00:00 +0000\"")
+			default:
+				fmt.Fprintf(&b, " BINARY.SIZE[%d] %d", k, k)
+			}
+		}
+		b.WriteString(")\r\n")
+		return b.String() + tag + " OK done\r\n"
 	case "SEARCH":
 		return "* SEARCH 1 2 3\r\n" + tag + " OK done\r\n"
 	case "UID SEARCH":
